@@ -3,7 +3,7 @@
     ALL grammars; that the emitted text parses, type-checks, compiles and is gofmt-canonical is decided
     by running the Go tools on every file the correspondence runs generate (all eight option sets, plus
     streams for many rules, imports, header comments, odd characters, comments in predicates). *)
-From PegV Require Import Base.Tac Model.EmitFacts Proofs.EmitProofs.
+From PegV Require Import Base.Tac Spec.Syntax Model.Analyses Model.EmitFacts Model.Emit Proofs.EmitProofs Proofs.EmitWF.
 Open Scope Z_scope.
 
 (** The type chosen for rule constants (and, since the fix, for the memo key's rule field) holds every
@@ -20,6 +20,50 @@ Theorem C08_comment_never_terminated :
   forall s, has_terminator (escape_comment s) = false.
 Proof. exact comment_never_terminated. Qed.
 Print Assumptions C08_comment_never_terminated.
+
+(** The label / block / variable skeleton of the rule functions ([Model/Emit.v], compared token by
+    token with every generated file of the run).  For every grammar in which every name is defined,
+    every option set and every rule function of the generated file:
+    - no label is declared twice ([NoDup (lbls F)]);
+    - every goto has its label in scope - declared in the statement list the goto is in or in an
+      enclosing one, never inside a block the goto is outside of ([scoped [] F]);
+    - every label that is declared is the target of some goto of the same function (Go rejects unused labels);
+    - variables are declared at the head of their block, so no goto jumps over a declaration;
+    - no label stands directly before a case clause (where Go wants a statement).
+    The dry pass that decides which labels to print is part of the model: the theorem covers the
+    agreement of the two passes. *)
+Theorem C08_labels_gotos_declarations :
+  forall g ast inline asu,
+    Forall (fun o => match o with Some F => fn_ok F | None => True end) (emit_all g ast inline asu (fun _ => false)).
+Proof. exact emit_all_wellformed. Qed.
+Print Assumptions C08_labels_gotos_declarations.
+
+Local Open Scope nat_scope.
+(** The same facts for the code of any single expression, whatever labels the table says are used
+    (hence also for grammars with undefined names), with the exactness of the flag that puts a break
+    after a trailing label: [ll] is true iff the code ends with a label. *)
+Theorem C08_expression_code_wellformed :
+  forall g ast inl asu used n e ko pd mk l c l' ll,
+    emit g ast inl asu used n e ko pd mk l = (c, l', ll) ->
+    l <= l' /\
+    (forall j, In j (jumps c) -> j = ko \/ l <= j < l') /\
+    (forall x, In x (lbls c) -> l <= x < l' /\ used x = true) /\
+    NoDup (lbls c) /\
+    ((forall j, In j (jumps c) -> used j = true) -> scoped [ko] c = true) /\
+    ll = ends_lbl c /\ forallb cases1 c = true /\
+    nodecl c = true /\ forallb decl1 c = true.
+Proof. exact emit_wellformed. Qed.
+Print Assumptions C08_expression_code_wellformed.
+
+(** non-vacuity: a grammar whose first rule is a choice with an optional tail, a repetition and a
+    lookahead; its function has labels, gotos, saved positions and nested blocks *)
+Example C08_skeleton_nonvacuous :
+  let g : grammar := [RBody (EAlt [ESeq [EChar 97; EQuery (EChar 120)]; ESeq [EStar (EChar 98); ENot EDot]])]%Z in
+  option_map (fun c => squash (flat c)) (nth 0 (emit_all g true false (fun _ => false) (fun _ => false)) None) =
+  Some [TSt; TSave 0; TOpen; TSaveP 1; TOpen; TSave 2; TCJmp 3; TSt; TOpen; TSave 4; TCJmp 4; TSt; TJmp 5; TLbl 4; TRestore 4; TClose; TLbl 5;
+        TJmp 2; TLbl 3; TRestore 2; TLbl 6; TOpen; TSave 7; TCJmp 7; TSt; TJmp 6; TLbl 7; TRestore 7; TClose;
+        TOpen; TSave 8; TCJmp 8; TJmp 0; TLbl 8; TRestore 8; TClose; TClose; TLbl 2; TUseP 1; TClose; TSt; TLbl 0; TSt; TRestore 0; TSt].
+Proof. vm_compute. reflexivity. Qed.
 
 Example C08_nonvacuous :
   escape_comment [47; 42; 32; 99; 32; 42; 47; 42; 42; 47]%Z = [47; 42; 32; 99; 32; 42; 32; 47; 42; 42; 32; 47]%Z /\
